@@ -1,1 +1,30 @@
-fn main() {}
+//! Monitors over the real node `Service` state machine and wire layer: C10 C11 C12 C13 C14 C16 C29.
+mod c10;
+mod c11;
+mod c12;
+mod c13;
+mod c14;
+mod c16;
+mod c29;
+mod svc;
+
+#[global_allocator]
+static ALLOC: vcommon::alloc::Counting = vcommon::alloc::Counting;
+
+fn main() {
+    vcommon::install_panic_hook();
+    let args = vcommon::Args::parse();
+    match args.prop.as_str() {
+        "C10" => c10::run(&args),
+        "C11" => c11::run(&args),
+        "C12" => c12::run(&args),
+        "C13" => c13::run(&args),
+        "C14" => c14::run(&args),
+        "C16" => c16::run(&args),
+        "C29" => c29::run(&args),
+        p => {
+            eprintln!("h-node: unknown property {p}");
+            std::process::exit(2);
+        }
+    }
+}
